@@ -380,7 +380,7 @@ pub fn structured_fault(rng: &mut Rng, valid: &str) -> Vec<u8> {
             *rng.pick(&idx)
         }
     };
-    match rng.below(16) {
+    match rng.below(22) {
         0 => {
             // mismatched end tag
             let p = pos_of(rng, b'/', &b);
@@ -449,7 +449,37 @@ pub fn structured_fault(rng: &mut Rng, valid: &str) -> Vec<u8> {
         }
         13 => b.clear(),
         14 => b = b"just text".to_vec(),
-        _ => b = b"<?xml version=\"1.0\"?><!DOCTYPE x><!-- only misc -->".to_vec(),
+        15 => b = b"<?xml version=\"1.0\"?><!DOCTYPE x><!-- only misc -->".to_vec(),
+        16 => {
+            // a second root element of the same name (the reader does not object)
+            let root: Vec<u8> = b.iter().skip_while(|c| **c != b'<').skip(1).take_while(|c| c.is_ascii_alphanumeric()).cloned().collect();
+            if !root.is_empty() {
+                b.push(b'<');
+                b.extend_from_slice(&root);
+                b.extend_from_slice(b" second=\"1\"><extra/></");
+                b.extend_from_slice(&root);
+                b.push(b'>');
+            }
+        }
+        17 => b.extend_from_slice(b"<other-root k=\"v\"><c/></other-root>"),
+        18 => b.extend_from_slice(b" trailing text"),
+        19 => {
+            // invalid UTF-8 inside a CDATA section
+            let p = pos_of(rng, b'>', &b);
+            b.splice(p + 1..p + 1, [b'<', b'!', b'[', b'C', b'D', b'A', b'T', b'A', b'[', 0xff, b']', b']', b'>'].iter().cloned());
+        }
+        20 => {
+            // attribute with an empty key / without quotes
+            let p = pos_of(rng, b'>', &b);
+            if p > 0 && b[p - 1] != b'/' && b[p - 1] != b'?' && b[p - 1] != b'-' && b[p - 1] != b']' {
+                let ins: &[u8] = if rng.chance(1, 2) { b" =\"1\"" } else { b" k=unquoted" };
+                b.splice(p..p, ins.iter().cloned());
+            }
+        }
+        _ => {
+            // an end tag before any start tag
+            b.splice(0..0, b"</early>".iter().cloned());
+        }
     }
     b
 }
